@@ -62,6 +62,7 @@ static void m_noop(void) { }
 struct ans { int kind; long v; int errno_; int queued; uint8_t *data; size_t dlen; };
 /* kinds: 0 ok/done, 1 wantRead, 2 wantWrite, 3 zeroReturn, 4 sslErr, 5 syscall, 6 zero(write returned 0) */
 static struct ans hs, io;
+static struct ans wq[8]; static int n_wq, used_wq;   /* one answer per SSL_write call of an operation; exhausted = all accepted */
 static int cert;                 /* 0 none, 1 ok, 2 rejected */
 static int last_kind, last_errno, last_queued;
 static int has_pending;
@@ -80,12 +81,14 @@ static int m_handshake(SSL *ssl) { hs_calls++; if (hs.kind == 0) return 1; retur
 static int m_write(SSL *ssl, const void *buf, int len)
 {
     ssl_write_calls++;
-    if (io.kind == 0) {
-	long k = io.v; if (k > len) k = len; if (k < 1) k = 1;
-	free(wr); wr = malloc(k); memcpy(wr, buf, k); wr_len = k;
+    struct ans dflt = { .kind = 0, .v = 1000000000 };
+    struct ans *a = used_wq < n_wq ? &wq[used_wq++] : &dflt;
+    if (a->kind == 0) {
+	long k = a->v; if (k > len) k = len; if (k < 1) k = 1;
+	wr = realloc(wr, wr_len + k); memcpy(wr + wr_len, buf, k); wr_len += k;
 	return (int)k;
     }
-    return answer_event(&io);
+    return answer_event(a);
 }
 static int m_read(SSL *ssl, void *buf, int cap)
 {
@@ -156,7 +159,7 @@ static void render(FILE *o, int rc, int e, const uint8_t *payload, size_t plen)
     else fprintf(o, "%d | -", rc);
     fputs(" |", o);
     for (int i = 0; i < XCM_TP_NUM_BYTESTREAM_CNTS; i++) fprintf(o, " %lld", (long long)btls_get_cnt(sock, (enum xcm_tp_cnt)i));
-    fprintf(o, " | %s c=%d w=%d | hs=%d wr=%d rd=%d", state_str(), b->conn.ssl_condition, b->conn.ssl_wants, hs_calls, ssl_write_calls, ssl_read_calls);
+    fprintf(o, " | %s c=%d w=%d pend=%zu | hs=%d wr=%d rd=%d", state_str(), b->conn.ssl_condition, b->conn.ssl_wants, b->conn.pending_write_len, hs_calls, ssl_write_calls, ssl_read_calls);
     fputs(" tx+", o);
     if (wr_len) h_showbytes(o, wr, wr_len); else fputc('-', o);
     fputc('\n', o);
@@ -171,9 +174,10 @@ int main(void)
     while (fgets(line, sizeof(line), stdin)) {
 	int n = h_words(line, w);
 	if (n == 0 || w[0][0] == '#') continue;
-	hs_calls = ssl_write_calls = ssl_read_calls = 0; wr_len = 0;
+	hs_calls = ssl_write_calls = ssl_read_calls = 0; wr_len = 0; n_wq = used_wq = 0;
 	if (!strcmp(w[0], "N") && n == 5) {
 	    /* N <auth 0|1> <client 0|1> <cert none|ok|rejected> <hs>: a connection that has just entered the handshake */
+	    if (sock) free(TOBTLS(sock)->conn.pending_write);
 	    free(sock);
 	    sock = calloc(1, sizeof(struct xcm_socket) + sizeof(struct btls_socket));
 	    sock->proto = &proto; sock->type = xcm_socket_type_conn; sock->sock_id = 1;
@@ -186,25 +190,31 @@ int main(void)
 	    parse_ans(&hs, w[4]);
 	    try_finish_tls_handshake(sock);
 	    fprintf(o, "%s c=%d w=%d\n", state_str(), b->conn.ssl_condition, b->conn.ssl_wants);
-	} else if (!strcmp(w[0], "S") && n == 4) {
+	} else if (!strcmp(w[0], "S") && n >= 3) {
+	    /* S <hex> <hs> [<write answer> ...] */
 	    size_t l; uint8_t *m = h_unhex(w[1], &l);
 	    uint8_t *ex = malloc(l ? l : 1); memcpy(ex, m, l); free(m);
-	    parse_ans(&hs, w[2]); parse_ans(&io, w[3]);
+	    parse_ans(&hs, w[2]);
+	    n_wq = used_wq = 0; for (int i = 3; i < n && n_wq < 8; i++) parse_ans(&wq[n_wq++], w[i]);
 	    errno = 0;
 	    int rc = btls_send(sock, ex, l); int e = errno;
 	    free(ex);
 	    render(o, rc, e, NULL, 0);
-	} else if (!strcmp(w[0], "R") && n == 4) {
+	} else if (!strcmp(w[0], "R") && n >= 4) {
+	    /* R <capacity> <hs> <read answer> [<write answer> ...]: the write answers serve the flush of retained output */
 	    size_t cap = strtoul(w[1], NULL, 10);
 	    uint8_t *buf = malloc(cap ? cap : 1);
 	    parse_ans(&hs, w[2]); parse_ans(&io, w[3]);
+	    n_wq = used_wq = 0; for (int i = 4; i < n && n_wq < 8; i++) parse_ans(&wq[n_wq++], w[i]);
 	    errno = 0;
 	    int rc = btls_receive(sock, buf, cap); int e = errno;
 	    render(o, rc, e, rc > 0 ? buf : NULL, rc > 0 ? (size_t)rc : 0);
 	    free(buf);
-	} else if (!strcmp(w[0], "F") && n == 3) {
+	} else if (!strcmp(w[0], "F") && n >= 3) {
+	    /* F <hs> <lower finish> [<write answer> ...] */
 	    parse_ans(&hs, w[1]);
 	    lower_finish_err = !strcmp(w[2], "ok") ? 0 : h_errnum(w[2]);
+	    n_wq = used_wq = 0; for (int i = 3; i < n && n_wq < 8; i++) parse_ans(&wq[n_wq++], w[i]);
 	    errno = 0;
 	    int rc = btls_finish(sock); int e = errno;
 	    render(o, rc, e, NULL, 0);
